@@ -11,6 +11,9 @@ from . import gen_abbr as ga
 MARKUP = ['html', 'xml', 'xsl', 'jsx', 'js', 'pug', 'slim', 'haml', 'vue', 'svelte']
 STYLE = ['css', 'sass', 'scss', 'less', 'sss', 'stylus']
 UNKNOWN = {'markup': 'myml', 'stylesheet': 'mycss'}
+# unknown names that are near misses of known ones (case variants, prefixes, suffixes): they are
+# unknown all the same and fall back to the type's defaults
+NEAR = {'markup': ['JSX', 'Vue', 'Html', 'XSL', 'js x', 'htm', 'pugs', 'xhtml5'], 'stylesheet': ['SASS', 'Stylus', 'Css', 'cs', 'scss2', 'les']}
 
 TAGN = {'GT': 1, 'GS': 2, 'U': 3, 'GX': 4}
 
@@ -142,6 +145,14 @@ def gen_global(rng, cfg_specs, n):
             layer[t] = layer_part(rng, style, 'GT', n)
         if maybe(rng, 0.7):
             layer[s] = layer_part(rng, style, 'GS', n)
+        if s.lower() != s or s.lower() in MARKUP + STYLE:
+            # a section for the similarly named syntax must not matter for this one (and vice versa)
+            for near in set([s.lower(), s.upper(), s.capitalize()]) - set([s]):
+                if maybe(rng, 0.5) and near not in layer:
+                    layer[near] = layer_part(rng, style, 'GX', n)
+        for other in (MARKUP + STYLE):
+            if other != s and (other in s or s in other) and other not in layer and maybe(rng, 0.4):
+                layer[other] = layer_part(rng, other in STYLE, 'GX', n)
     # layers for unrelated types/syntaxes must not influence anything
     types = set(sp.get('type', 'markup') for sp in cfg_specs)
     syntaxes = set(sp.get('syntax', 'css' if sp.get('type') == 'stylesheet' else 'html') for sp in cfg_specs)
@@ -152,7 +163,7 @@ def gen_global(rng, cfg_specs, n):
     return layer
 
 
-MARKUP_ABBRS = ['ul>li.item[title]', 'zz', 'a', 'img', 'div[lang=${lang}]', 'div{${charset}}', 'tm', '!!!', 'input[disabled.]',
+MARKUP_ABBRS = ['!', 'doc', 'ul>li.item[title]', 'zz', 'a', 'img', 'div[lang=${lang}]', 'div{${charset}}', 'tm', '!!!', 'input[disabled.]',
                 'div.c/', 'link', 'bq>p', 'label[for=x].y', '..cls', 'p>span*2', 'div{${locale}}>zz', 'section>(a+img)*2', 'br+hr',
                 'html>body>div>p', 'p>a+em+span+b', 'input[checked title]', 'div>span*4', 'ul>li*2>a', 'table>tr>td', 'zy+zx', 'zw>a']
 STYLE_ABBRS = ['m10', 'zz', 'm', 'p10+m5', 'bd', 'c#f', 'p', 'pos', 'w1.5', 'z5+zz', 'm1.5-2', 'lh2', 'bd+m+p', 'posr', 'c#fc0.5',
@@ -176,7 +187,7 @@ def gen_c20(run_seed):
             specs.append(spec)
             world['configs'][cid] = spec
             continue
-        names = (STYLE if style else MARKUP) + [UNKNOWN[t]]
+        names = (STYLE if style else MARKUP) + [UNKNOWN[t]] + [pick(rng, NEAR[t])]
         if cross:
             names = names + ['anysyn', 'anysyn'] + (MARKUP[:3] if style else STYLE[:3])
         s = pick(rng, names)
@@ -269,7 +280,7 @@ def gen_c20(run_seed):
 # of (syntax, key) pairs the built-in tables do / do not define)
 
 GRID_NAMES = [('markup', s) for s in MARKUP] + [('stylesheet', s) for s in STYLE] + \
-             [('markup', UNKNOWN['markup']), ('stylesheet', UNKNOWN['stylesheet'])]
+             [('markup', UNKNOWN['markup']), ('stylesheet', UNKNOWN['stylesheet']), ('markup', 'JSX'), ('stylesheet', 'SASS')]
 GRID_KEYS = {
     ('markup', 'options'): ['output.selfClosingStyle', 'jsx.enabled', 'markup.attributes', 'output.indent', 'custom.flag'],
     ('stylesheet', 'options'): ['stylesheet.after', 'stylesheet.between', 'stylesheet.intUnit', 'custom.flag'],
@@ -314,6 +325,8 @@ def gen_c20_grid(index):
                     return snippet_value(style, key, tag, n)
                 return '%s%d' % (tag, n)
             layer = {'nosuch': {kind: {key: val('GX')}}}
+            if s.lower() != s:
+                layer[s.lower()] = {kind: {key: val('GX')}}
             other = 'stylesheet' if not style else 'markup'
             layer[other] = {kind: {key: val('GX')}}
             if gt:
